@@ -195,3 +195,16 @@ Example C01_view_of_W :
   List.length (ArgData.types (view W [fa])) = 8%nat /\
   view (erase W []) [fa] = view W [].
 Proof. vm_compute. repeat split; reflexivity. Qed.
+
+(** [C13_feature_pipeline_eq] / [C13_feature_subscription_eq]: the premises hold for the witness in
+    C04's encoding (VW) and in C13's (W); the front half of the composed pipeline on the text
+    "{i{...on J{y}}}" rejects it without fa (impossible spread) and accepts it with fa *)
+From ApiFu Require Vld.ProofsCommon Pipe.Compose.
+Example pipeline_premises :
+  ProofsCommon.order_ok ValidatorModel.id_order /\
+  FeaturesVld.vok FeaturesVld.VW = true /\ schema_ok W = true /\ subset [] [fa] = true /\
+  (match Compose.parse_and_validate_order ValidatorModel.id_order FeaturesVld.VW [] (nm "{i{...on J{y}}}") with
+   | Compose.FInvalid _ _ => true | _ => false end) = true /\
+  (match Compose.parse_and_validate_order ValidatorModel.id_order FeaturesVld.VW [fa] (nm "{i{...on J{y}}}") with
+   | Compose.FAccepted _ => true | _ => false end) = true.
+Proof. split; [exact ProofsCommon.id_order_ok|]. vm_compute. repeat split; reflexivity. Qed.
